@@ -35,6 +35,10 @@ typedef struct carquet_statistics_builder {
     size_t min_len;
     size_t max_len;
 
+    /* Set once a value did not fit into min_value/max_value: min/max then no
+     * longer bound every value seen and must not be reported */
+    bool min_max_incomplete;
+
     /* For computing distinct count (simple approximation) */
     /* Full HyperLogLog would be better but more complex */
 } carquet_statistics_builder_t;
@@ -149,6 +153,7 @@ void carquet_statistics_builder_reset(carquet_statistics_builder_t* builder) {
     builder->num_values = 0;
     builder->min_len = 0;
     builder->max_len = 0;
+    builder->min_max_incomplete = false;
 }
 
 /* ============================================================================
@@ -201,6 +206,13 @@ carquet_status_t carquet_statistics_add_values(
     size_t value_size = get_value_size(builder->type, builder->type_length);
     if (value_size == 0) {
         return CARQUET_ERROR_INVALID_ARGUMENT;  /* Use byte array API */
+    }
+
+    if (value_size > sizeof(builder->min_value)) {
+        /* Values this wide cannot be stored: count them, but give up on min/max */
+        builder->min_max_incomplete = true;
+        builder->num_values += num_values;
+        return CARQUET_OK;
     }
 
     const uint8_t* data = (const uint8_t*)values;
@@ -306,8 +318,9 @@ carquet_status_t carquet_statistics_add_byte_arrays(
         const uint8_t* val = values[i].data;
         size_t val_len = (size_t)values[i].length;
 
-        /* Skip if too large */
+        /* Too large to store: min/max can no longer claim to bound all values */
         if (val_len > sizeof(builder->min_value)) {
+            builder->min_max_incomplete = true;
             continue;
         }
 
@@ -377,7 +390,7 @@ carquet_status_t carquet_statistics_build(
     }
 
     /* Min value */
-    if (builder->has_min && builder->min_len > 0) {
+    if (builder->has_min && builder->min_len > 0 && !builder->min_max_incomplete) {
         if (arena) {
             stats->min_value = carquet_arena_memdup(arena,
                 builder->min_value, builder->min_len);
@@ -395,7 +408,7 @@ carquet_status_t carquet_statistics_build(
     }
 
     /* Max value */
-    if (builder->has_max && builder->max_len > 0) {
+    if (builder->has_max && builder->max_len > 0 && !builder->min_max_incomplete) {
         if (arena) {
             stats->max_value = carquet_arena_memdup(arena,
                 builder->max_value, builder->max_len);
